@@ -123,6 +123,8 @@ def run(ctx):
     ctx.rule("R4", "reported eigenvalues: ascending eigh output, contiguous lowest block above the padding null space")
     ctx.rule("R5", "orbital energies are permuted together with the orbitals and both reach the solvers")
     ctx.rule("R6", "starting guesses are orthonormalised; a lost root raises")
+    ctx.rule("R7", "subspace collapse reads the old subspace before overwriting it (Ritz vectors and their images are rebuilt from intact data)")
+    ctx.rule("R8", "the number of start vectors of a molecule never exceeds its own number of occupied-virtual pairs")
 
     for rel, drv, helper in DRIVERS:
         mod = repo.mod(rel)
@@ -450,6 +452,113 @@ def run(ctx):
     st_norm = [st for st in ast.walk(og) if isinstance(st, ast.Assign) and norm(st.targets[0]) == "V[vend]"]
     ctx.check(len(st_norm) == 1 and norm(st_norm[0].value).replace(" ", "") == "vec/vecnorm", "R6", rc, og, "orthogonalize_to_current_subspace", "normalisation",
               "accepted vectors are normalised", f"accepted vectors are stored as {[norm(s.value) for s in st_norm]}")
+    # ---------------------------------------------------------------- R7 collapse block: read-before-overwrite
+    n7 = 0
+    for rel, drv, helper in DRIVERS:
+        mod = repo.mod(rel)
+        f = mod.func(drv)
+        blocks = [st for st in ast.walk(f) if isinstance(st, ast.If) and "collapse_mask" in norm(st.test)]
+        if not blocks:
+            raise AnalysisError(f"{drv}: collapse block not found")
+        for blk in blocks:
+            written = {}
+            def scan(stmts):
+                nonlocal n7
+                for st in stmts:
+                    if isinstance(st, (ast.For, ast.If, ast.With)):
+                        scan(st.body)
+                        if getattr(st, "orelse", None):
+                            scan(st.orelse)
+                        continue
+                    if not isinstance(st, (ast.Assign, ast.AugAssign)):
+                        continue
+                    tg = st.targets if isinstance(st, ast.Assign) else [st.target]
+                    # reads on the right-hand side
+                    for x in ast.walk(st.value):
+                        if isinstance(x, ast.Subscript) and isinstance(x.value, ast.Name) and isinstance(x.ctx, ast.Load) and x.value.id in written:
+                            prior = written[x.value.id]
+                            # a prior store that only zeroes rows *beyond* the kept block is harmless only if it comes after; any prior store is a hazard
+                            n7 += 1
+                            ctx.fail("R7", mod, st, drv, f"{short(norm(st), 70)}",
+                                     f"`{short(norm(st), 90)}` rebuilds the collapsed subspace from `{norm(x)}`, but `{x.value.id}` was already overwritten in this collapse by "
+                                     f"`{short(norm(prior), 60)}`: the Ritz vectors / their images are computed from wiped data (only reached when the subspace limit forces a restart)")
+                    for t in tg:
+                        if isinstance(t, ast.Subscript) and isinstance(t.value, ast.Name):
+                            # a store whose own right-hand side reads the same buffer is the rebuild itself
+                            written.setdefault(t.value.id, st)
+            scan(blk.body)
+            n7 += 1
+            ctx.ok("R7", f"{short(rel)}:{drv}", f"collapse block: every buffer ({sorted(written)}) is read before its first overwrite")
+    # ---------------------------------------------------------------- R8 start-vector bound
+    def upper_bounds(e, defs, depth=0, selfname=None, selfprev=None):
+        """normalised expressions known to bound `e` from above (min / minimum / clamp(max=) chains, sequential redefinitions)"""
+        out = {norm(e).replace(" ", "")}
+        if depth > 8:
+            return out
+        if isinstance(e, ast.Name):
+            if e.id == selfname and selfprev is not None:
+                return out | selfprev
+            if defs.get(e.id):
+                cur = None
+                for v in defs[e.id]:           # definitions in source order; a redefinition may refer to the previous value
+                    cur = upper_bounds(v, defs, depth + 1, e.id, cur)
+                return out | (cur or set())
+            return out
+        if isinstance(e, ast.Call):
+            nm = (call_name(e) or "").split(".")[-1]
+            if nm in ("min", "minimum") and len(e.args) >= 2:
+                for a in e.args:
+                    out |= upper_bounds(a, defs, depth + 1, selfname, selfprev)
+                return out
+            if nm == "clamp":
+                base = e.func.value if isinstance(e.func, ast.Attribute) and not (call_name(e) or "").startswith(("torch.", "th.")) else (e.args[0] if e.args else None)
+                if base is not None:
+                    out |= upper_bounds(base, defs, depth + 1, selfname, selfprev)
+                for kw in e.keywords:
+                    if kw.arg == "max":
+                        out |= upper_bounds(kw.value, defs, depth + 1, selfname, selfprev)
+                return out
+        if isinstance(e, ast.IfExp):
+            bb = upper_bounds(e.body, defs, depth + 1, selfname, selfprev)
+            bo = upper_bounds(e.orelse, defs, depth + 1, selfname, selfprev)
+            # X if A + X < M else max(0, M - A): when the test fails M - A <= X, so the result never exceeds X
+            t = e.test
+            if isinstance(t, ast.Compare) and isinstance(t.ops[0], ast.Lt) and isinstance(t.left, ast.BinOp) and isinstance(t.left.op, ast.Add) and norm(t.left.right) == norm(e.body) \
+                    and isinstance(e.orelse, ast.Call) and (call_name(e.orelse) or "") == "max" and len(e.orelse.args) == 2 and norm(e.orelse.args[0]) == "0" \
+                    and norm(e.orelse.args[1]).replace(" ", "") == f"{norm(t.comparators[0])}-{norm(t.left.left)}".replace(" ", ""):
+                out |= bb
+            else:
+                out |= bb & bo
+        return out
+    import re as _re
+    for rel, gname in ((RCIS, "make_guess"), (RCISN, "make_guess_any_batch")):
+        mod = repo.mod(rel)
+        gf = mod.func(gname)
+        gd = {}
+        for st in ast.walk(gf):
+            if isinstance(st, ast.Assign) and len(st.targets) == 1 and isinstance(st.targets[0], ast.Name):
+                gd.setdefault(st.targets[0].id, []).append(st.value)
+        # nstart = nroots + extra: find the name(s) added to the root count
+        nst = [nm for nm, vs in gd.items() if nm.startswith("nstart") and vs]
+        if not nst:
+            raise AnalysisError(f"{gname}: start-vector count not found")
+        v = gd[nst[0]][0]
+        while isinstance(v, ast.Call) and (call_name(v) or "").split(".")[-1] in ("minimum", "min") and v.args:
+            v = v.args[0]
+        extra = None
+        if isinstance(v, ast.BinOp) and isinstance(v.op, ast.Add):
+            for side in (v.left, v.right):
+                if isinstance(side, ast.Name) and not side.id.startswith("nroots"):
+                    extra = side
+        if extra is None:
+            ctx.fail("R8", mod, gf, gname, nst[0], f"{nst[0]} = {short(norm(gd[nst[0]][0]), 60)} is not `roots + extra`")
+            continue
+        ub = upper_bounds(extra, gd)
+        ok_ = any(_re.fullmatch(r"\(?nov\w*-nroots\w*\)?", u) or _re.fullmatch(r"torch\.clamp\(nov\w*-nroots\w*,min=0\)", u) for u in ub)
+        ctx.check(ok_, "R8", mod, gf, gname, f"{extra.id} <= nov - nroots",
+                  f"{gname}: the extra start vectors `{extra.id}` are bounded by the molecule's own remaining pairs (nov - nroots)",
+                  f"{gname}: the extra start vectors `{extra.id}` have upper bounds {sorted(ub)[:4]} but none is the molecule's own `nov - nroots`: a small molecule (in a mixed batch next "
+                  f"to a larger one) gets unit start vectors on padded, non-existent occupied-virtual pairs and returns spurious zero eigenvalues")
     ctx.floor("R1", 12)
     ctx.floor("R2", 12)
     ctx.floor("R3", 12)
